@@ -897,7 +897,7 @@ class HistogramBase(abc.ABC):
                 self._coerce_dtype(other.dtype)
                 self.frequencies = self.frequencies + other.frequencies
                 self.errors2 = self.errors2 + other.errors2
-                self._missed += other._missed
+                self._missed = self._missed + other._missed
             elif self.is_adaptive():
                 if other.missed > 0:
                     raise ValueError("Cannot adapt histogram with missed values.")
